@@ -153,13 +153,16 @@ def run_tm(c: Case, case: dict) -> dict:  # noqa: C901
                             c.violate("no_activity_after_shutdown", "cancelled_task_ran_on",
                                       f"task '{name}' generation {g} resumed its work although it had been cancelled / replaced")
                 finally:
-                    if cleanup:
-                        # a task that needs time to wind down after it was cancelled (asynchronous clean-up)
-                        world.probe("tm_slow_cleanup")
-                        await asyncio.sleep(cleanup)
-                    running[name].discard(g)
-                    seq[0] += 1
-                    log.append((seq[0], name, g, "last"))
+                    try:
+                        if cleanup:
+                            # a task that needs time to wind down after it was cancelled (asynchronous clean-up)
+                            world.probe("tm_slow_cleanup")
+                            await asyncio.sleep(cleanup)
+                    finally:
+                        # (a second cancellation may hit the clean-up itself)
+                        running[name].discard(g)
+                        seq[0] += 1
+                        log.append((seq[0], name, g, "last"))
             return body, g
 
         for op in case["ops"]:
@@ -207,8 +210,16 @@ def run_tm(c: Case, case: dict) -> dict:  # noqa: C901
                 world.probe("tm_wall_clock_stepped")
             await asyncio.sleep(op["d"] if kind == "advance" else 700.0 if kind == "advance_long" else 0.0)
         await asyncio.sleep(case.get("tail", 5.0))
+        # (a task cancelled or replaced earlier is forgotten by the task manager at once, by design: only the tasks it still
+        #  tracks when shutdown is requested are its to wait for)
+        tracked = {(nm, g2) for nm in running for g2 in running[nm] if (nm, g2) not in cancel_requested}
         await tm.shutdown_task_manager()
         tm_state["shutdown_done"] = True
+        still = sorted((nm, g2) for nm in running for g2 in running[nm] if (nm, g2) in tracked)
+        if still:
+            # a cancelled task that needs a few loop iterations to wind down (asynchronous clean-up) is still executing
+            c.violate("no_activity_after_shutdown", "task_still_running_when_shutdown_returned",
+                      f"shutdown_task_manager() returned while {still} had not finished (cancelled, still in its clean-up)")
         await asyncio.sleep(3.0)
         # replace ordering: for each name, generation g+1's first step must come after generation g's last step
         per: dict = {}
